@@ -1134,8 +1134,10 @@ class Engine:
                         res.append((val, s))
                     elif kind == "raise":
                         res.append((Raise(val), s))
+                    elif kind == "abort":
+                        raise Unsupported("%s (in %s)" % (val, fn.name))
                     else:
-                        raise Unsupported("break/continue escaping a function")
+                        raise Unsupported("break/continue escaping a function: %s in %s" % (kind, fn.name))
         finally:
             self.frames.pop()
         for v, s in res:
@@ -1497,6 +1499,39 @@ class Engine:
 
         return self._expr_to_stmt(self.ev(stmt.test, st), after)
 
+    WHILE_FUEL = 24
+
+    def ex_While(self, stmt, st):
+        """while loops are unrolled (the test forks like an `if`); a path that is still looping after WHILE_FUEL iterations leaves the
+        verified subset (undecided - never silently cut short)"""
+        if stmt.orelse:
+            raise Unsupported("while/else")
+        done = []
+        live = [st]
+        for _ in range(self.WHILE_FUEL + 1):
+            nxt = []
+            for s in live:
+                def after(c, s1):
+                    res = []
+                    for flag, s2 in self.fork(self.truth(c, s1), s1):
+                        if not flag:
+                            res.append(("exit", None, s2))
+                        else:
+                            res.extend(self.exec_block(stmt.body, s2))
+                    return res
+
+                for k, v, s2 in self._expr_to_stmt(self.ev(stmt.test, s), after):
+                    if k in ("ok", "continue"):
+                        nxt.append(s2)
+                    elif k in ("exit", "break"):
+                        done.append(("ok", None, s2))
+                    else:
+                        done.append((k, v, s2))
+            live = nxt
+            if not live:
+                return done
+        raise Unsupported("while loop still running after %d iterations" % self.WHILE_FUEL)
+
     def ex_Assert(self, stmt, st):
         def after(c, s):
             res = []
@@ -1595,9 +1630,6 @@ class Engine:
             else:
                 res.append((kind, val, s))
         return res
-
-    def ex_While(self, stmt, st):
-        raise Unsupported("while loop")
 
     # ------------------------------------------------------------------ for loops
     def ex_For(self, stmt, st):
